@@ -306,6 +306,26 @@ def check(ctx):
         ctx.ob('C07.R7.regression-loop', 'tools/regression', bool(mains),
                'the regression game loop adjudicates with Position::is_checkmate/is_stalemate/is_draw (%s)' % [short(m.name) for m in mains],
                site=mains[0].loc() if mains else 'tools/regression/main.cpp')
+    # ---- R8 what the predicates are computed from -----------------------------------------------------------------
+    # is_checkmate/is_stalemate answer from the generated move list (R5), rule50/is_draw from the half-move clock: a generator
+    # that drops or adds a move, or a clock that is updated wrongly, makes these answers wrong for the positions concerned.
+    from rules.common import SubCtx
+    import props.C01 as c01
+    sub = SubCtx(ctx)
+    c01.check(sub)
+    bad = [r for r in sub.results if not r[2]]
+    ctx.ob('C07.R8.generator', 'is_checkmate/is_stalemate', not bad,
+           'the move generator the mate/stalemate predicates count with satisfies every C01 rule%s'
+           % ('' if not bad else ' — refuted: ' + '; '.join('%s %s at %s' % (r[0], r[1], r[4]) for r in bad[:4])),
+           site=bad[0][4] if bad else 'engine/movegen.cpp')
+    import props.C02 as c02
+    sub = SubCtx(ctx)
+    c02.check(sub)
+    bad = [r for r in sub.results if not r[2] and r[0].startswith('C02.R2')]
+    ctx.ob('C07.R8.clock', 'rule50', not bad,
+           'the half-move clock the fifty-move test reads is reset exactly by pawn moves and captures (C02.R2)%s'
+           % ('' if not bad else ' — refuted: ' + '; '.join('%s %s at %s' % (r[0], r[1], r[4]) for r in bad[:4])),
+           site=bad[0][4] if bad else 'engine/position.cpp')
     ctx.note('not decided: agreement of the answers with the rules for each concrete game history')
 
 
